@@ -607,6 +607,13 @@ func (s *Session) writeChunk(b []byte) (n int, err error) {
 	s.oLock.Lock()
 	ptr := b
 	for i := nFragment - 1; i >= 0; i-- {
+		// Once the first fragment of a chunk is queued the whole chunk is
+		// queued: giving up half way would report the chunk as not written
+		// while part of it is delivered to the peer.
+		fragmentTimeC := timeC
+		if i != nFragment-1 {
+			fragmentTimeC = nil
+		}
 		select {
 		case <-s.closedChan:
 			s.oLock.Unlock()
@@ -614,7 +621,7 @@ func (s *Session) writeChunk(b []byte) (n int, err error) {
 		case <-s.outputErr:
 			s.oLock.Unlock()
 			return 0, io.ErrClosedPipe
-		case <-timeC:
+		case <-fragmentTimeC:
 			s.oLock.Unlock()
 			return 0, stderror.ErrTimeout
 		default:
